@@ -30,7 +30,7 @@ LEVEL_TEXT = ("Real runs of lengths 1-12 with output periods 1-4 and all plug-in
               "time, release, forcing, [output iff step >= 0], tracker, ibm - each exactly once - and close exactly once per module that has one.")
 LEVEL_NOTE = "The two traces are recorded by different mechanisms (wrappers vs interpreter events) and must agree call for call; a run whose tracer saw zero anchored calls is inconclusive."
 RULE = ("case = (variant, steps, period, plug-in spelling, warm/cold, kill schedule). Non-trivial: at least 2 steps and a release after the first step or an IBM kill; distinct by parameters.")
-MANDATORY = ["two_models_alive_and_stepped_in_turn", "records_compared_with_the_solo_run", "plugin_file_name_with_a_dot", "warm_start_record_times_checked", "v1_user_gridforce_module", "v1_user_module_name_ending_in_ROMS", "no_particles_during_first_steps", "stock_scalar_values_checked", "plugin_section_with_module_only", "steps_parsed", "traces_agree", "plugin_relative", "plugin_absolute", "plugin_with_py", "plugin_subdir", "plugin_module_name", "decoy_present", "warm_start_runs",
+MANDATORY = ["grid_module_taken_from_the_forcing_section", "two_models_alive_and_stepped_in_turn", "records_compared_with_the_solo_run", "plugin_file_name_with_a_dot", "warm_start_record_times_checked", "v1_user_gridforce_module", "v1_user_module_name_ending_in_ROMS", "no_particles_during_first_steps", "stock_scalar_values_checked", "plugin_section_with_module_only", "steps_parsed", "traces_agree", "plugin_relative", "plugin_absolute", "plugin_with_py", "plugin_subdir", "plugin_module_name", "decoy_present", "warm_start_runs",
              "output_plugin_runs", "forcing_plugin_runs", "coded_scalar_values_checked", "ibm_positions_checked", "kills_checked", "ibm_kills_everybody_present", "late_release_in_record", "close_calls_checked"]
 ASSUMPTIONS = ["state and time have no close by design; close is required exactly once only for modules that define one"]
 MIN_CASES_PER_PROCESS = 4  # several runs share one interpreter: state leaking between runs (module caches, shared defaults) becomes observable
@@ -279,6 +279,14 @@ def run_case(case: dict[str, Any], wd: Path) -> dict[str, Any]:
             if sp == "subdir":
                 write_decoy(wd / f"{name}.py", cls)  # a file of the same name in the working directory itself
         modspec[role] = spell(wd, name, sp)
+    one_file = bool(variant == "analytic" and case["idx"] % 5 == 1 and sp in ("relative", "relative_py", "absolute", "absolute_py"))
+    if one_file:
+        # Grid and Forcing live in one user file named in the forcing section only; the grid section carries options but no module
+        (wd / "my_gridforce.py").write_text("from vmon import rec\nrec.CALLS.append(('loaded', 'real:grid', 'Grid'))\nrec.CALLS.append(('loaded', 'real:forcing', 'Forcing'))\n"
+                                            "from vmon.plugins.ana_grid import Grid  # noqa: E402,F401\nfrom vmon.plugins.ana_forcing import Forcing  # noqa: E402,F401\n")
+        write_decoy(decoy_dir / "my_gridforce.py", "Grid")
+        modspec["grid"] = modspec["forcing"] = spell(wd, "my_gridforce", sp)
+        sit["grid_module_taken_from_the_forcing_section"] = 1
     sit["plugin_" + {"relative": "relative", "relative_py": "with_py", "absolute": "absolute", "absolute_py": "with_py", "subdir": "subdir", "module_name": "module_name"}[sp]] = 1
     sit["decoy_present"] = int(sp != "module_name")
     sit["plugin_section_with_module_only"] = int(case["idx"] % 3 == 0)
@@ -315,6 +323,8 @@ def run_case(case: dict[str, Any], wd: Path) -> dict[str, Any]:
         run["extra_forcing"] = ["temp"]
     else:
         run["grid"] = dict(module=modspec["grid"], filename="unused-by-this-plug-in", xmin=0.0, xmax=30.0, ymin=0.0, ymax=25.0, dx=1000.0)
+        if one_file:
+            run["grid"].pop("module")
         run["forcing"] = dict(module=modspec["forcing"], flow=dict(kind="rotation", omega=sp_u / 5.0, xc=8.0, yc=6.0), scalar=coef, record=False)
     scn = dict(world=world, run=run)
 
@@ -325,7 +335,7 @@ def run_case(case: dict[str, Any], wd: Path) -> dict[str, Any]:
     old_path = list(sys.path)
     sys.path.insert(2, str(decoy_dir))
     sys.path.insert(2, str(moddir))
-    for m in [k for k in sys.modules if k in ("my_ibm", "my_forcing", "my_grid", "my_output")]:
+    for m in [k for k in sys.modules if k in ("my_ibm", "my_forcing", "my_grid", "my_output", "my_gridforce")]:
         del sys.modules[m]
     tracer = Tracer([str(REPO / "ladim"), str(wd), str(VERIF / "vmon" / "plugins")])
     rec.reset()
